@@ -86,8 +86,8 @@ def fileName (p : Path) : Option Name :=
 
 /-- `rsplit_file_at_dot` core: text before and after the last `.` -/
 def splitLastDot (name : Name) : Option (Name × Name) :=
-  match name.reverse.span (· ≠ '.') with
-  | (afterRev, '.' :: beforeRev) => some (beforeRev.reverse, afterRev.reverse)
+  match name.reverse.dropWhile (· ≠ '.') with
+  | '.' :: beforeRev => some (beforeRev.reverse, (name.reverse.takeWhile (· ≠ '.')).reverse)
   | _ => none
 
 /-- `Path::extension` on a file name -/
@@ -294,11 +294,16 @@ def parentDirectory (d : Path) : Path :=
 
 def initName : Name := ['i', 'n', 'i', 't']
 
-/-- {Luau,Path}RequireMode::is_module_folder_name -/
+/-- {Luau,Path}RequireMode::is_module_folder_name: the file is the module-folder file of the
+mode — its name is the module folder name, or (when that name has no extension of its own) the
+name followed by `.lua` / `.luau`. (Before the fix of C15-F32 any file with the name as its stem
+qualified: `init.json`.) -/
 def isModuleFolderName (folder : Name) (p : Path) : Bool :=
   match fileName p with
   | none => false
-  | some n => n == folder || fileStem n == folder
+  | some n =>
+    n == folder ||
+      ((pathExtension (components folder)).isNone && isLuaExt (extension n) && fileStem n == folder)
 
 def selfName : Name := ['@', 's', 'e', 'l', 'f']
 
